@@ -164,7 +164,7 @@ func monitorUCI(sc *UCIScenario, out *UCIOutcome) (vs []Violation, windows []*go
 				kw := firstToken(l)
 				switch kw {
 				case "info":
-					if il := parseInfo(l); (!owed || cur == nil) && !(il.hasDepth || il.hasNodes || il.hasPV) {
+					if il := parseInfo(l); !(il.hasDepth || il.hasNodes || il.hasPV) {
 						// not a search report (e.g. `info string ...`): the statement is silent about it
 						break
 					}
